@@ -1,5 +1,5 @@
 SPECIFICATION TraceSpec
 CONSTANTS MaxRecs = 99 MaxCalls = 9999 MaxRuns = 9999 CommitBeforeReturn = TRUE TolerantVersionRead = FALSE
           AtomicUpgrade = FALSE Legacy = FALSE MaxBatches = 9999 GateResetOnError = TRUE ReloadWait = 0 MaxDepth = 9999 EnterKeepsPending = TRUE ParentFirst = TRUE Strict = TRUE
-CONSTANTS MaxVers = 9999 TokenConflict = "ignore" MaxFaults = 9999 CommitErrorRaises = TRUE
+CONSTANTS MaxVers = 2 TokenConflict = "ignore" MaxFaults = 9999 CommitErrorRaises = TRUE
 INVARIANT TraceAccepted
